@@ -73,4 +73,12 @@ PROPS = {
         steps=[_s("h-cli", "c20")],
         assumptions=["15 struct shapes; repeats <= 2 per repeated field; the oracle accepts either outcome where the declared grammar leaves acceptance open"],
     ),
+
+    "C17": dict(
+        level="model_checking",
+        technique="explicit-state BFS over all interleavings of application steps (the real IoUring methods, via hook H1) and simulated kernel steps, from every start value of the ring counters incl. wrap; invariants on every state",
+        steps=[_s("h-ring", None, name="ring"), _s("h-ring", None, name="ring-nochk", profile="nochk")],
+        assumptions=["kernel side simulated at call granularity (consume 1/all, post 1/all); the index array is the identity as set up by setup_io_uring",
+                     "bounded by 2*entries+6 application operations per state space; ring sizes 1,2,4 (thorough: 8)"],
+    ),
 }
